@@ -22,6 +22,8 @@ for dp, dn, fns in os.walk(os.path.join(root, "nostr_relay")):
         is_init[mod] = f == "__init__.py"
 pn = ProgramNormalizer(trees, is_init)
 pn.propagate_all()
+pn.split_with_items()
+pn.canonical_forms()
 known, sigs, locs = set(), {}, {}
 for mod, tree in trees.items():
     def visit(node, prefix):
@@ -49,4 +51,5 @@ for mod, tree in trees.items():
         if isinstance(n, ast.ClassDef):
             classes.add(f"{mod}:{n.name}")
 json.dump(sorted(classes), open(os.path.join(here, "known_classes.json"), "w"), indent=0)
+json.dump({m: pn.imports[m] for m in sorted(pn.imports)}, open(os.path.join(here, "known_imports.json"), "w"), indent=0, sort_keys=True)
 print(len(known), "functions", sum(len(v) for v in locs.values()), "locals")
